@@ -107,6 +107,12 @@ type oUnit struct {
 	EnvMethods map[string]oEnvSpec
 	EnvFuncs   map[string]oEnvSpec
 	Targets    []oTarget
+	// optional (element layer, obj_elems.go)
+	Header     string              // replaces the first comment block of the generated file
+	Inject     map[string]string   // "*T->I": env function that turns the object *T into a value of the open interface I
+	SubSums    map[string][]string // interface J implemented by some constructors of a closed interface: `_, ok := x.(J)`
+	SkipDefers map[string]bool     // `defer f(..)` of a function without effect on values (pool release): left out
+	EnvConsts  map[string]string   // source text of a call -> env constant (its Go type after `:`), e.g. "SlabIDStorable(id).ByteSize()"
 }
 
 // ---------------------------------------------------------------------------------------------
@@ -457,6 +463,7 @@ type otrans struct {
 	// parameters of dropped interface types: their argument-less methods are env constants
 	droppedParams map[string]string
 	funcParams    map[string]string // dropped function-typed parameters (callbacks) -> their Go type
+	droppedLocals map[string]string // `var x *T` of a dropped type (the target of errors.As)
 }
 
 var (
@@ -601,8 +608,11 @@ func (x *otrans) rebind(en oenv, v *ovar, val string) string {
 	if v.frozen {
 		fail("write to %s, a read-only copy of an object that may live elsewhere (aliasing)", v.goName)
 	}
-	if v.moved || v.dead {
-		fail("use of %s after it was stored elsewhere / is nil (aliasing)", v.goName)
+	if v.dead {
+		return "" // a nil pointer: the statement is behind a `never` guard (nil dereference = panic)
+	}
+	if v.moved {
+		fail("use of %s after it was stored elsewhere (aliasing)", v.goName)
 	}
 	out := "let " + v.lean + " : " + x.ti(v.typ).Lean + " := " + val + "\n"
 	x.noteAssigned(v)
@@ -695,6 +705,17 @@ func (x *otrans) coerce(v oval, want string) oval {
 		v.typ = want
 		return v
 	}
+	if fn, ok := x.u.Inject[strings.TrimSpace(v.typ)+"->"+strings.TrimSpace(want)]; ok && vi.Kind == "obj" {
+		// an object seen through an open interface from now on: the injection is a parameter
+		switch wi.Kind {
+		case "optopaque":
+			x.envFn(fn, vi.Lean+" → "+wi.Payload, fmt.Sprintf("a `%s` as a value of the interface `%s` (injection)", v.typ, want))
+			return oval{lean: "(some (env." + fn + " " + paren(v.lean) + "))", typ: want, fresh: true}
+		case "opaque":
+			x.envFn(fn, vi.Lean+" → "+wi.Lean, fmt.Sprintf("a `%s` as a value of the interface `%s` (injection)", v.typ, want))
+			return oval{lean: "(env." + fn + " " + paren(v.lean) + ")", typ: want, fresh: true}
+		}
+	}
 	fail("type mismatch: %s has type %s, want %s", v.lean, v.typ, want)
 	return v
 }
@@ -729,7 +750,7 @@ func (x *otrans) expr(e ast.Expr, en oenv, want string) oval {
 			if v.dead {
 				// nil pointer: every use is a nil dereference
 				x.guards = append(x.guards, oguard{kind: "never"})
-				return oval{lean: v.lean, typ: v.typ}
+				return oval{lean: v.lean, typ: v.typ, lv: &olval{base: v.lean}}
 			}
 			return oval{lean: v.lean, typ: v.typ, lv: &olval{base: v.lean}}
 		}
@@ -755,6 +776,11 @@ func (x *otrans) expr(e ast.Expr, en oenv, want string) oval {
 		if e.Op == token.NOT {
 			v := x.coerce(x.expr(e.X, en, "bool"), "bool")
 			return oval{lean: "(!" + paren(v.lean) + ")", typ: "bool"}
+		}
+		if e.Op == token.SUB {
+			if bl, ok := e.X.(*ast.BasicLit); ok && bl.Kind == token.INT {
+				return oval{lean: "(-" + bl.Value + " : Int)", typ: "int"}
+			}
 		}
 		if e.Op == token.AND {
 			if cl, ok := e.X.(*ast.CompositeLit); ok {
@@ -1115,7 +1141,7 @@ func (x *otrans) callEnv(name string, spec oEnvSpec, recv *oval, args []ast.Expr
 		ki := x.ti(t)
 		typ += ki.Lean + " → "
 		callArgs += " " + paren(v.lean)
-		if x.u.isObjKind(ki.Kind) && isMut(pos, ki) {
+		if (x.u.isObjKind(ki.Kind) || (ki.Kind == "opaque" && len(spec.Mut) > 0)) && isMut(pos, ki) {
 			if v.lv == nil {
 				fail("%s: argument %s is changed by the call and is not a variable / field", name, v.lean)
 			}
@@ -1130,6 +1156,15 @@ func (x *otrans) callEnv(name string, spec oEnvSpec, recv *oval, args []ast.Expr
 		if spec.DropAll || x.isDropped(ptypes[i]) {
 			x.dropArg(a, en)
 			continue
+		}
+		if ts := typeSpecs[ptypes[i]]; ts != nil {
+			if _, isF := ts.Type.(*ast.FuncType); isF {
+				// a callback handed on: both sides call it through env under the name of its type
+				if _, ok := x.funcParams[idName(a)]; !ok {
+					fail("%s: the callback argument %s is not a callback parameter of the caller", name, norm(src(a)))
+				}
+				continue
+			}
 		}
 		v := x.coerce(x.expr(a, en, ptypes[i]), ptypes[i])
 		if v.view {
@@ -1297,6 +1332,36 @@ func (x *otrans) call(e *ast.CallExpr, en oenv) (oval, *oeffect) {
 
 // callT: targets = the left-hand sides of the assignment the call is the right-hand side of
 func (x *otrans) callT(e *ast.CallExpr, en oenv, targets []ast.Expr) (oval, *oeffect) {
+	if spec, ok := x.u.EnvConsts[norm(src(e))]; ok {
+		// a call whose value does not depend on the state (checked by the reader of the table): an env constant
+		parts := strings.SplitN(spec, ":", 2)
+		x.envFn(parts[0], x.ti(parts[1]).Lean, "`"+norm(src(e))+"`, a constant")
+		return oval{lean: "env." + parts[0], typ: parts[1]}, nil
+	}
+	if isSel(e.Fun, "errors", "As") && len(e.Args) == 2 {
+		// errors.As(err, &v) with `var v *T`: does the chain of err hold a *T?  A parameter per T; false for a nil error.
+		u, isU := e.Args[1].(*ast.UnaryExpr)
+		if !isU || u.Op != token.AND {
+			fail("unsupported errors.As form %s", norm(src(e)))
+		}
+		t, ok := x.droppedLocals[idName(u.X)]
+		if !ok || !strings.HasPrefix(t, "*") {
+			fail("errors.As into %s, which is not a `var _ *T` of a dropped error type", norm(src(u.X)))
+		}
+		ev := x.expr(e.Args[0], en, "error")
+		if x.ti(ev.typ).Kind != "err" {
+			fail("errors.As on %s", ev.typ)
+		}
+		name := "errors_As_" + t[1:]
+		x.envFn(name, "ε → Bool", fmt.Sprintf("`errors.As(err, &v)` for `var v %s` and a non-nil err", t))
+		return oval{lean: "(match " + ev.lean + " with | none => false | some e_ => env." + name + " e_)", typ: "bool"}, nil
+	}
+	if id, ok := e.Fun.(*ast.Ident); ok && en.lookup(id.Name) == nil && len(e.Args) == 1 && funcs[id.Name] == nil {
+		if ti, ok := x.u.Types[id.Name]; ok && (ti.Kind == "optopaque" || ti.Kind == "opaque" || ti.Kind == "sum") {
+			// conversion to an interface type
+			return x.coerce(x.expr(e.Args[0], en, id.Name), id.Name), nil
+		}
+	}
 	if id, ok := e.Fun.(*ast.Ident); ok && en.lookup(id.Name) == nil {
 		if ft, ok := x.funcParams[id.Name]; ok {
 			// a function-typed parameter (callback): an env function named after its TYPE
